@@ -24,6 +24,10 @@ from symgo.values import Unsupported  # noqa
 MODULE = "go.brendoncarroll.net/p2p"
 
 
+def pkgpath(pd):
+    return MODULE if pd in ("", ".") else MODULE + "/" + pd
+
+
 def parse_directives(path):
     """//verif: key=value ... lines directly above a VH_ function"""
     out = {}
@@ -66,6 +70,8 @@ def match_known(known, prop, harness, kind, label, func):
 
 
 def main():
+    import faulthandler, signal
+    faulthandler.register(signal.SIGUSR1, all_threads=True)
     ap = argparse.ArgumentParser()
     ap.add_argument("prop", nargs="?")
     ap.add_argument("--tier", default=os.environ.get("VERIF_TIER", "quick"))
@@ -98,7 +104,7 @@ def main():
         for c in glob.glob(os.path.join(os.path.dirname(f), "zz_verifshared_*.go")):
             if c not in extra:
                 extra.append(c)
-    ws = D.Workspace(files + extra)
+    ws = D.Workspace(files + extra, tier)
     rc = 2
     try:
         rc = run(prop, tier, seed, ws, directives, args, t_start)
@@ -112,7 +118,7 @@ def run(prop, tier, seed, ws, directives, args, t_start):
     dump = ws.dump(extra_args=["-roots", "VH_%s_" % prop])
     prog = X.Program(dump)
     base_opts = {"workers": args.workers, "witness": True, "witness_rate": 1.0, "tier": tier, "verbose": args.verbose}
-    pkgs = [MODULE + "/" + pd for pd in ws.pkgdirs]
+    pkgs = [pkgpath(pd) for pd in ws.pkgdirs]
     init = D.run_init(prog, pkgs, base_opts)
 
     results = []
@@ -131,7 +137,7 @@ def run(prop, tier, seed, ws, directives, args, t_start):
     for fid in roots:
         name = fid.rsplit(".", 1)[-1]
         for pd in ws.pkgdirs:
-            if fid.startswith(MODULE + "/" + pd + "."):
+            if fid.startswith(pkgpath(pd) + ".VH_"):
                 pkg_of[name] = pd
     pool = D.make_pool(prog, init, base_opts, seed)
     native_jobs = {}
